@@ -367,6 +367,9 @@ func (a *effAnalysis) instr(ins ssa.Instruction) {
 		}
 	case *ssa.UnOp:
 		if x.Op == token.MUL {
+			if a.structCopyReads(x) {
+				break
+			}
 			a.read(a.addrLoc(x.X), x.Pos())
 		}
 	case *ssa.Store:
@@ -940,4 +943,65 @@ func (ef *Effects) globalsRead() []string {
 		}
 	}
 	return sortedKeys(m)
+}
+
+
+// structCopyReads: x loads a whole library struct through a pointer (v := *p). The load is a read of every
+// field of *p — except the fields that the copy overwrites at once: when the loaded value is only stored into
+// a fresh local, fields of that local stored later in the same block never show what *p held. Returns false
+// when x is not such a load.
+func (a *effAnalysis) structCopyReads(x *ssa.UnOp) bool {
+	nt, ok := x.Type().(*types.Named)
+	if !ok {
+		return false
+	}
+	st, ok := nt.Underlying().(*types.Struct)
+	if !ok || nt.Obj().Pkg() == nil || !strings.HasPrefix(nt.Obj().Pkg().Path(), a.e.c.ModPath) {
+		return false
+	}
+	switch x.X.(type) {
+	case *ssa.Global, *ssa.FieldAddr, *ssa.IndexAddr, *ssa.Alloc:
+		return false
+	}
+	killed := map[int]bool{}
+	if refs := x.Referrers(); refs != nil && len(*refs) == 1 {
+		if cp, ok := (*refs)[0].(*ssa.Store); ok && cp.Val == ssa.Value(x) {
+			if al, ok := cp.Addr.(*ssa.Alloc); ok {
+				after := false
+				for _, ins := range cp.Block().Instrs {
+					if ins == ssa.Instruction(cp) {
+						after = true
+						continue
+					}
+					if !after {
+						continue
+					}
+					switch y := ins.(type) {
+					case *ssa.Store:
+						if fa, ok := y.Addr.(*ssa.FieldAddr); ok && fa.X == ssa.Value(al) {
+							killed[fa.Field] = true
+						}
+					case *ssa.UnOp:
+						if fa, ok := y.X.(*ssa.FieldAddr); ok && fa.X == ssa.Value(al) && !killed[fa.Field] {
+							// read before being overwritten: stays a read
+							_ = fa
+						}
+					}
+				}
+			}
+		}
+	}
+	o := a.origin(x.X)
+	for i := 0; i < st.NumFields(); i++ {
+		if killed[i] {
+			continue
+		}
+		fld := fieldName(nt, i)
+		l := Loc{Root: o.Root, Flat: nt.Obj().Name() + "." + fld}
+		if o.Root != "a" && o.Root != "o" {
+			l.Path = o.Path + "." + fld
+		}
+		a.read(l, x.Pos())
+	}
+	return true
 }
